@@ -339,8 +339,9 @@ def geometry_failure(c, full, rel=Fr(1, 10 ** 9)):
     d = [dot(n, sub(v, ref)) for v in V]
     nmag = max(abs(x) for x in n)
     vmag = max([Fr(1)] + [abs(x) for v in V for x in v] + [abs(x) for x in ref])
-    # the band: with a corner strictly inside the tolerance band the cut vertices move by up to tol/|d_far|
-    loose = Fr(1, 10 ** 5) if (c.get("has_near") or c.get("inexact")) else rel
+    # the kernel works on snapped distances: a corner inside the band is cut AT that corner, so the expected clipped face
+    # (computed below from the snapped distances) is met to rounding also when corners sit inside the band
+    loose = rel
     by_src = {}
     for j, i in enumerate(mp):
         by_src.setdefault(i, []).append(j)
@@ -386,26 +387,3 @@ def geometry_failure(c, full, rel=Fr(1, 10 ** 9)):
                     % (i, signs, [float(x) for x in got], [float(x) for x in want]))
     return None
 
-
-def near_band_class(c, failure):
-    """known finding `near_band_cut_leaves_face`: matched on the input class (a selected face with a corner in front
-    whose offset is below 100 tol and a corner strictly inside the band, not exactly on the plane) and on the kind of
-    failure (a vertex outside its face / clipped area mismatch), never on the property id alone."""
-    if not failure or not c.get("has_near"):
-        return None
-    if not any(k in failure for k in ("lies outside input face", "do not tile")):
-        return None
-    V = [F3(v) for v in c["vertices"]]
-    ref, n = F3(c["ref"]), F3(c["normal"])
-    nv = len(V)
-    for i, f in enumerate(c["faces"]):
-        if c["mask"] is not None and not c["mask"][i]:
-            continue
-        if not all(0 <= k < nv for k in f):
-            continue
-        ds = [dot(n, sub(V[k], ref)) for k in f]
-        front = [x for x in ds if x > TOL]
-        inband = [x for x in ds if x != 0 and abs(x) <= TOL]
-        if front and inband and min(front) < 100 * TOL:
-            return "near_band_cut_leaves_face"
-    return None
